@@ -109,7 +109,8 @@ def main():
             continue
         d = f"/verif/seeded/{key}"
         os.makedirs(d, exist_ok=True)
-        shutil.copy(f"{src}/patch{k}.diff", f"{d}/patch.diff")
+        rebased = f"{src}/patch{k}.rebased.diff"      # merged onto later fix: commits of /repo where the original no longer applied
+        shutil.copy(rebased if os.path.exists(rebased) else f"{src}/patch{k}.diff", f"{d}/patch.diff")
         shutil.copy(f"{src}/demo{k}.py", f"{d}/demo.py")
         meta = {
             "property": pid,
